@@ -224,6 +224,102 @@ def vectoryx2d_forms_both_modes(mask, values, grid):
     return None
 
 
+# ------------------------------------------------------------------------------------------------ derived / edited structures
+
+
+def _gen_hist(rng, tier):
+    for m in _mask_stream(rng, tier, 60, 1500):
+        if (~m).sum() == 0:
+            continue
+        yield {"mask": m, "values": gens.reals(rng, m.shape, special=False), "yx": gens.reals(rng, m.shape + (2,), special=False),
+               "seed": rng.randrange(10 ** 6)}
+
+
+@bounded("C01", "forms-after-arithmetic-and-edits", gen=_gen_hist, nontrivial=_nontrivial_mask, twins=("mask", "values", "yx"))
+def forms_after_arithmetic_and_edits(mask, values, yx, seed):
+    """C01: 'the native form holds those same values at their original pixel positions with every masked position equal to
+    zero, whichever form was supplied at construction ... converting slim to native and back returns the identical slim
+    values' -- for structures that are not fresh from a constructor: results of arithmetic on slim- and native-stored
+    Array2D / Grid2D (a + c, a * c, a - b), skip_mask construction, and structures edited in place through item assignment
+    (unmasked and masked pixel, integer and boolean index) -- with the forms read once BEFORE the edit, so a form that is
+    remembered instead of recomputed shows; bound: every mask of 13 (21) shapes <= 9 (12) cells + 60 (1500) random masks."""
+    import random as _r
+    import autoarray as aa
+    rng = _r.Random(seed)
+    mk = aa.Mask2D(mask=mask.copy(), pixel_scales=(1.0, 2.0), origin=(0.5, -1.0))
+    un = np.argwhere(~mask)
+    ma = np.argwhere(mask)
+    c = rng.choice([10.0, -3.0, 0.5])
+
+    def nat(slim, tail=()):
+        out = np.zeros(mask.shape + tuple(tail))
+        out[~mask] = slim
+        return out
+
+    for store_native in (False, True):
+        # ---- Array2D: arithmetic keeps "masked positions are zero"
+        a = aa.Array2D(values=values.copy(), mask=mk, store_native=store_native)
+        b = aa.Array2D(values=(2.0 * values + 1.0), mask=mk, store_native=store_native)
+        s0 = values[~mask]
+        for lab, obj, want in (("a + c", a + c, s0 + c), ("a * c", a * c, s0 * c), ("a - b", a - b, s0 - (2.0 * s0 + 1.0)),
+                               ("(a + c).native + c", (a + c).native + c, s0 + 2 * c), ("(a + c).slim * c", (a + c).slim * c, (s0 + c) * c)):
+            # (the raw storage of an arithmetic result is not a "form": its .slim / .native are)
+            for lab2, f, w in ((".slim", obj.slim, want), (".native", obj.native, nat(want)), (".slim.native", obj.slim.native, nat(want)),
+                               (".native.slim", obj.native.slim, want)):
+                msg = _expect("Array2D(store_native=%s): (%s)%s" % (store_native, lab, lab2), f, w, w.shape)
+                if msg:
+                    return msg
+        sk = aa.Array2D(values=values.copy(), mask=mk, store_native=store_native, skip_mask=True)
+        for lab, f, want in ((".native", sk.native, nat(s0)), (".slim", sk.slim, s0), (".slim.native", sk.slim.native, nat(s0))):
+            msg = _expect("Array2D(..., store_native=%s, skip_mask=True)%s" % (store_native, lab), f, want, want.shape)
+            if msg:
+                return msg
+        # ---- in-place edits, forms read before and after
+        for kind in ("array", "grid"):
+            src = values if kind == "array" else yx
+            tail = () if kind == "array" else (2,)
+            cls = aa.Array2D if kind == "array" else aa.Grid2D
+            cur = src[~mask].copy()
+            obj = cls(values=(src.copy() if store_native else cur.copy()), mask=mk, store_native=store_native)
+            label = "%s(store_native=%s)" % (cls.__name__, store_native)
+            msg = _check_forms(label, obj, cur, nat(cur, tail), store_native, deep=False)      # first read of every form
+            if msg:
+                return msg
+            k = rng.randrange(len(un))
+            v = 20.0 + rng.random() if kind == "array" else np.array([20.0 + rng.random(), -20.0])
+            if store_native:
+                obj[tuple(un[k])] = v
+            else:
+                obj[k] = v
+            cur[k] = v
+            msg = _check_forms(label + "; read forms; item assignment at unmasked pixel %r; read forms" % (tuple(un[k]),), obj, cur,
+                               nat(cur, tail), store_native, deep=False)
+            if msg:
+                return msg
+            if store_native and len(ma):
+                obj[tuple(ma[rng.randrange(len(ma))])] = 7.0                 # a write to a masked pixel never reaches a form
+                for lab, f, want in ((".native", obj.native, nat(cur, tail)), (".slim", obj.slim, cur), (".slim.native", obj.slim.native, nat(cur, tail))):
+                    msg = _expect(label + "; item assignment at a masked pixel; " + lab, f, want, want.shape)
+                    if msg:
+                        return msg
+            neg = np.asarray(obj.array) < 0.0
+            obj[neg] = 0.0                                                    # boolean-index assignment, the library's own idiom
+            cur = np.where(cur < 0.0, 0.0, cur)
+            for lab, f, want in ((".native", obj.native, nat(cur, tail)), (".slim", obj.slim, cur), (".slim.native", obj.slim.native, nat(cur, tail)),
+                                 (".native.slim", obj.native.slim, cur)):
+                msg = _expect(label + "; read forms; x[x < 0] = 0; " + lab, f, want, want.shape)
+                if msg:
+                    return msg
+            cp = obj.copy()
+            cp[tuple(un[0]) if store_native else 0] = (1.5 if kind == "array" else np.array([1.5, 2.5]))
+            cur2 = cur.copy(); cur2[0] = 1.5 if kind == "array" else np.array([1.5, 2.5])
+            for lab, f, want in ((".native", cp.native, nat(cur2, tail)), (".slim", cp.slim, cur2), ("original .native", obj.native, nat(cur, tail))):
+                msg = _expect(label + "; c = x.copy(); c[first unmasked] = ...; " + lab, f, want, want.shape)
+                if msg:
+                    return msg
+    return None
+
+
 # ------------------------------------------------------------------------------------------------ index lists
 
 
